@@ -43,8 +43,10 @@ def inline_policy(fn, ev):
     # functions (varint writers, zig-zag) stay opaque and are proven separately by BIT
     if fn.argc == 0:
         return True
-    s = fn.impl_self or ""
-    return s.endswith("ser::serializer::Serializer<F>")
+    if fn.crate != "postcard":
+        return False
+    import vint
+    return not vint.is_helper(fn)
 
 
 def spec_for(fn):
@@ -253,7 +255,7 @@ def check_collect_str(run, F, helpers, fn):
     pc = F.crate("postcard")
     # the two local fmt::Write impls
     ws = [f for f in pc.fns if f.name == "write_str" and (f.impl_trait or "") == "core::fmt::Write"
-          and "collect_str" in f.canon]
+          and "ser::serializer" in f.canon]
     problems = []
     counter = None
     emitter = None
@@ -277,7 +279,7 @@ def check_collect_str(run, F, helpers, fn):
                 CT = e0["loc"][2]
     # provided methods of fmt::Write (write_char, write_fmt) must stay derived from write_str, or agree with it
     for o in pc.fns:
-        if (o.impl_trait or "") == "core::fmt::Write" and "collect_str" in o.canon and o.name != "write_str":
+        if (o.impl_trait or "") == "core::fmt::Write" and "ser::serializer" in o.canon and o.name != "write_str":
             is_counter = o.impl_self == counter[0].impl_self
             okov = False
             if o.name == "write_char" and is_counter:
@@ -321,10 +323,10 @@ def check_collect_str(run, F, helpers, fn):
     for p in ps:
         evs = tbl.residual_calls(p)
         s = ("param", 2, w.locals[2]["ty"])
-        out = ("init", ("F", ("P", ("param", 1, w.locals[1]["ty"])), "output"))
-        ok_e = (len(evs) == 2 and evs[0]["key"].endswith("<impl str>::as_bytes") and norm(evs[0]["args"][0]) == s
-                and evs[1]["key"] == tbl.SER_EXTEND and norm(evs[1]["args"][0]) == out
-                and norm(evs[1]["args"][1]) == norm(evs[0]["result"]))
+        evs = [e for e in evs if not (e["key"] or "").endswith("<impl str>::as_bytes")]
+        a0 = norm(evs[0]["args"][0]) if evs else None
+        is_field_of_self = bool(a0) and a0[0] == "init" and a0[1][0] == "F" and a0[1][1] == ("P", ("param", 1, w.locals[1]["ty"]))
+        ok_e = (len(evs) == 1 and evs[0]["key"] == tbl.SER_EXTEND and is_field_of_self and norm(evs[0]["args"][1]) == s)
         if not ok_e:
             problems.append("emitting pass does not forward exactly s.as_bytes() to the flavor's try_extend")
     # main body: write_fmt(counter) ; VAR<usize>(ctr.ct) ; write_fmt(emitter{output:&mut self.output})
